@@ -1,7 +1,7 @@
 SPECIFICATION MCSpec
 CONSTANTS
   WT = "u4"
-  Widths = {2, 3}
+  Widths = {3}
   MaxWords = 3
   Depth = 0
   Export = FALSE
